@@ -117,7 +117,7 @@ def extract(cfg, reaction, builder, tables, style="physical"):
     style "pinned":   it is added to the amplitude of the transition it was derived from (what the
         pinned implementation does; differs only when the exchanged particles have different helicities).
     """
-    from ampform.helicity import _generate_kinematic_variable_set
+    from ampform.dynamics.builder import TwoBodyKinematicVariableSet
     from ampform.helicity.decay import TwoBodyDecay
     from ampform.helicity.naming import create_amplitude_base, get_helicity_angle_symbols
 
@@ -175,7 +175,15 @@ def extract(cfg, reaction, builder, tables, style="physical"):
                     decay = TwoBodyDecay.from_transition(pt, node_id)
                     if decay in builder.dynamics:
                         dyn_builder = builder.dynamics[decay]
-                        vs = _generate_kinematic_variable_set(pt, node_id)
+                        # the node's OWN variables, built here from the qrules data (not by ampform):
+                        # invariant masses of the decaying state and of its two daughters, L of this node
+                        mass = lambda e: sp.Symbol("m_" + "".join(map(str, attached(pt.topology, e))), nonnegative=True)  # noqa: E731
+                        L = inter.l_magnitude
+                        if L is None and Fraction(P.particle.spin).denominator == 1:
+                            L = int(P.particle.spin)
+                        vs = TwoBodyKinematicVariableSet(incoming_state_mass=mass(parent_id), outgoing_state_mass1=mass(a),
+                                                         outgoing_state_mass2=mass(b), helicity_theta=theta, helicity_phi=phi,
+                                                         angular_momentum=L)
                         expr, _ = dyn_builder(decay.parent.particle, vs)
                         if expr != 1:
                             dyn = tables.placeholder(expr)
@@ -259,7 +267,8 @@ def gen(seed, n, cases_prefix, nshards):
     rng = random.Random(seed * 104729 + 7)
     names = reactions.names()
     fixed = [mg.default_cfg(nm) for nm in names]
-    fixed += [mg.default_cfg("jpsi_gpipi_hel", dyn="bwff"), mg.default_cfg("jpsi_ksp1750_hel", couplings=True),
+    fixed += [mg.default_cfg("jpsi_gpipi_f2_can", dyn="bwff", dyn_names=["J/psi(1S)", "f(2)(1270)"]),
+              mg.default_cfg("jpsi_gpipi_hel", dyn="bwff"), mg.default_cfg("jpsi_ksp1750_hel", couplings=True),
               mg.default_cfg("lc_pkpi_can", dyn="bw"), mg.default_cfg("d0_k3pi_hel", dyn="bw"),
               mg.default_cfg("jpsi_ksp1750_can", ins_parent=True), mg.default_cfg("jpsi_ksp_hel", ins_child=False)]
     cfgs = list(fixed[: max(1, n)]) if n < len(fixed) else list(fixed)
